@@ -63,8 +63,23 @@ int main(void) {
         long n = ops_hex(ops_tok[2], buf, sizeof(buf));
         if (n < 0) { sdk_out("BADOP"); }
         else {
-          _supla_int_t r = srpc_async_call(devconn->srpc, (unsigned)strtoul(ops_tok[1], 0, 10),
-                                           n ? (char *)buf : NULL, (unsigned)n);
+          unsigned cid = (unsigned)strtoul(ops_tok[1], 0, 10);
+          _supla_int_t r;
+          /* a payload that is a well-formed message of one of the calls the firmware issues through a typed sender goes through
+             that sender (the same frame has to come out as from the generic call) */
+          if (cid == SUPLA_DS_CALL_DEVICE_CHANNEL_EXTENDEDVALUE_CHANGED && n >= 6 && buf[2] + 256u * buf[3] + 65536u * buf[4] == (unsigned)(n - 6) &&
+              buf[5] == 0 && n - 6 <= SUPLA_CHANNELEXTENDEDVALUE_SIZE && n - 6 > 0) {
+            static TSuplaChannelExtendedValue ev;
+            memset(&ev, 0, sizeof(ev));
+            ev.type = (char)buf[1]; ev.size = (unsigned)(n - 6); memcpy(ev.value, buf + 6, n - 6);
+            r = srpc_ds_async_channel_extendedvalue_changed(devconn->srpc, buf[0], &ev);
+          } else if (cid == SUPLA_DS_CALL_DEVICE_CHANNEL_VALUE_CHANGED && n == 9) {
+            r = srpc_ds_async_channel_value_changed(devconn->srpc, buf[0], (char *)buf + 1);
+          } else if (cid == SUPLA_DS_CALL_CHANNEL_SET_VALUE_RESULT && n == 6) {
+            _supla_int_t sender; memcpy(&sender, buf + 1, 4);
+            r = srpc_ds_async_set_channel_result(devconn->srpc, buf[0], sender, (char)buf[5]);
+          } else
+            r = srpc_async_call(devconn->srpc, cid, n ? (char *)buf : NULL, (unsigned)n);
           sdk_out("CALLRET %u", (unsigned)r);
         }
       } else if (!strcmp(ops_tok[0], "esp")) {
